@@ -151,7 +151,13 @@ def verdictViolation (n : Nat) (v : String) : Option String :=
   let items := toks.takeWhile fun t => t.toNat?.isSome
   let rest := toks.drop items.length
   let inOrder := items == (List.range items.length).map toString
-  if !inOrder then some s!"a read returned {v}: not the uncached sequence (a tuple rebuilt wrongly, duplicated or out of order)"
+  let nums := items.filterMap String.toNat?
+  let rec increasing : List Nat → Bool
+    | a :: b :: r => a < b && increasing (b :: r)
+    | _ => true
+  if !inOrder && increasing nums && rest == ["D"] then
+    some s!"partial result served as complete: a read returned {v} — tuples of the uncached result are missing and the sequence ends with Done"
+  else if !inOrder then some s!"a read returned {v}: not the uncached sequence (a tuple rebuilt wrongly, duplicated or out of order)"
   else match rest with
     | ["D"] => if items.length == n then none else
         some s!"partial result served as complete: a read returned {items.length} of {n} tuples and then Done"
